@@ -213,4 +213,39 @@ def DistinctPeers (s : AppState) (is : List IterInput) : Prop :=
 instance (s : AppState) (is : List IterInput) : Decidable (DistinctPeers s is) := by
   unfold DistinctPeers; infer_instance
 
+/-! ### The handles through which messages get into `outgoing_messages`
+
+Handlers are given an `AsyncStream { addr, sender, state, connected }`: `AsyncStream::new` (`connected = true`) for
+the connect and the message handler, `AsyncStream::disconnected` (`connected = false`) for the disconnect handler
+(both sites: receive error and heartbeat timeout). The application holds `AsyncSender`s (`app.sender()`). All of
+them wrap a clone of the one `Sender<OutgoingMessage>`; the loop drains the channel in every iteration
+(`outgoing_messages.try_iter()`, the `outgoing` of `IterInput`). A call either puts messages into the channel or
+panics (`.send(..).ok()`: when the loop has gone the message is lost silently). -/
+
+/-- What `send` / `broadcast` look at of an `AsyncStream`. -/
+structure Handle where
+  addr : Addr
+  connected : Bool
+  deriving DecidableEq, Repr
+
+/-- What a call does. -/
+inductive Enq
+  | queued (o : List Out)
+  | panic
+  deriving DecidableEq, Repr
+
+/-- `AsyncStream::send`: `assert!(self.connected); self.sender.send(OutgoingMessage::Message(self.addr, message)).ok()`. -/
+def Handle.send (s : Handle) (m : Msg) : Enq :=
+  if s.connected then .queued [.unicast s.addr m] else .panic
+
+/-- `AsyncStream::broadcast`: `self.sender.send(OutgoingMessage::Broadcast(message)).ok()` - no look at `connected`,
+no look at `addr`. (The visiting order is chosen at the flush: `[]` here.) -/
+def Handle.broadcast (_s : Handle) (m : Msg) : Enq := .queued [.broadcast m []]
+
+/-- `AsyncSender::send`. -/
+def senderSend (a : Addr) (m : Msg) : Enq := .queued [.unicast a m]
+
+/-- `AsyncSender::broadcast`. -/
+def senderBroadcast (m : Msg) : Enq := .queued [.broadcast m []]
+
 end Humphrey.WsApp
